@@ -388,6 +388,18 @@ func (c *Ctx) mapFilteredByNameSet(fn *ssa.Function, m ssa.Value) bool {
 	fi := core.Info(fn)
 	core.EachInstr(fn, func(i ssa.Instruction) {
 		call, ok := i.(*ssa.Call)
+		// maps.DeleteFunc(m, func(k, _) bool { return !names[k] }): every key that is not exactly a member is deleted
+		if ok && core.CalleeKey(&call.Call) == "maps.DeleteFunc" && len(call.Call.Args) == 2 && sameMap(call.Call.Args[0], m) {
+			if set, negated, okP := predMembership(call.Call.Args[1]); okP && negated {
+				if mt, isMap := set.Type().Underlying().(*types.Map); isMap || true {
+					_ = mt
+					if c.fromPkgCall(set) != nil {
+						found = true
+					}
+				}
+			}
+			return
+		}
 		if !ok || core.CalleeKey(&call.Call) != "builtin.delete" {
 			return
 		}
